@@ -321,19 +321,29 @@ func (r *verifRunner) step(a map[string]any) (string, error) {
 	case "Reload":
 		// composite: every attached session leaves, the idle timer fires (real unload path), the same sessions re-subscribe
 		var names []string
+		oboOf := map[string]string{} // session -> user id it is attached on behalf of (root sessions)
 		if tp := w.hub.topicGet(w.canon(t)); tp != nil && !tp.isInactive() {
-			for s := range tp.sessions {
+			for s, pssd := range tp.sessions {
 				for n, x := range w.sess {
 					if x.s == s {
 						names = append(names, n)
+						if pssd.uid != s.uid {
+							oboOf[n] = pssd.uid.UserId()
+						}
 					}
 				}
 			}
 		}
+		withObo := func(n string, m map[string]any) map[string]any {
+			if o, ok := oboOf[n]; ok {
+				m["extra"] = map[string]any{"obo": o}
+			}
+			return m
+		}
 		sort.Slice(names, func(i, j int) bool { return verifSessNum(names[i]) < verifSessNum(names[j]) })
 		for _, n := range names {
 			x := w.sess[n]
-			if err := w.send(x, map[string]any{"leave": map[string]any{"id": w.id(), "topic": w.addr(x, t, false)}}, true); err != nil {
+			if err := w.send(x, withObo(n, map[string]any{"leave": map[string]any{"id": w.id(), "topic": w.addr(x, t, false)}}), true); err != nil {
 				return "", err
 			}
 		}
@@ -346,7 +356,7 @@ func (r *verifRunner) step(a map[string]any) (string, error) {
 		}
 		for _, n := range names {
 			x := w.sess[n]
-			if err := w.send(x, map[string]any{"sub": map[string]any{"id": w.id(), "topic": w.addr(x, t, false)}}, true); err != nil {
+			if err := w.send(x, withObo(n, map[string]any{"sub": map[string]any{"id": w.id(), "topic": w.addr(x, t, false)}}), true); err != nil {
 				return "", err
 			}
 		}
